@@ -3,10 +3,20 @@
  S  spec/C07_Syntax.tla         bracket rules of the printer vs. the grammar ladder of the parser, both GENERATED from the code
                                 (spec/gen/C07_Tables.tla); TLC explores every depth-2 nesting of operators; invariant RoundTrip on the
                                 nestings that have a well-typed instance
- ->  harness/drivers/c07.py     real print -> parse on: every well-typed depth-2 nesting of every operator in every position (all printer
-                                configurations), seeded depth-3 nestings, binders / literals / if / function update / polymorphic
-                                constants / name clashes, library statements as terms and sequents, constant types, stored proof items
- T  spec/C07_SyntaxTrace.tla    RoundTrip (parses, and equal through the structural codec), PrintIsFunction over print/parse histories
+ S  spec/C07_Args.tla           proof-step arguments: one value per signature of parser.parse_args (instantiations over overlapping
+                                type / term variable names, empty parts, lambda values, values printed with annotations, tuples,
+                                lists), the text format as coded (one dict for the braces, split by key); invariant ArgRoundTrip;
+                                every value is emitted as a vector
+ S  spec/C07_History.tla        histories: the printer at the level of the objects it hands out (memoised ASTs, fresh outputs,
+                                commas_join extending the first list in place); every history of 3 (4) print operations over objects
+                                that share terms and over the settings; invariants PrintStable, PrintIsFunction; every history is a vector
+ ->  harness/drivers/c07.py     real print -> parse on: every well-typed depth-2 nesting of every operator in every position (plain
+                                settings + rotating highlighted ones), seeded depth-3 nestings, binders / literals / if / function
+                                update / polymorphic constants / name clashes (all 12 settings), library statements as terms and
+                                sequents, constant types, stored proof items; the argument vectors through print_str_args /
+                                export_proof_item; the history vectors on real objects in one process; every print is done twice
+ T  spec/C07_SyntaxTrace.tla    RoundTripParses, RoundTrip (equal through the structural codec, instantiations with both parts),
+                                PrintStable (same object, same settings => same printed object), PrintIsFunction
 """
 import copy
 import json
@@ -120,35 +130,8 @@ def write_tables(ops, lad, typable):
     (SPEC / "gen" / "C07_Tables.tla").write_text("\n".join(lines[:3] + ["EXTENDS TLC"] + lines[3:]) + "\n")
 
 
-def run(rep, tier):
-    quick = tier == "quick"
-    wd = work_dir("C07", clean=True)
-    rep.rule = ("TLC: every depth-2 nesting of the operators of syntax/operator.py / application, printed with the table's bracket rules and "
-                "parsed with the grammar's ladder (both generated from the code). Real code: one well-typed instance of every typable "
-                "nesting under 4 printer configurations, seeded further instances and depth-3 nestings, ~60 special forms, and a seeded "
-                "sample of library statements / sequents / constant types / stored proof items. Non-trivial = every event; distinct by content.")
-    rep.assumptions = ["terms use constants at declared instances and do not contain two free variables of one name at different types",
-                       "TLC/SANY, structural codec, the extraction of the grammar ladder by harness/checks/c07.py (regular expressions over the grammar text)"]
-    ops, lad, d = gen_tables(wd)
-    # real code first: it also tells which nestings have a well-typed instance
-    nest = wd / "nest.ndjson"
-    run_driver("c07", ["nest", nest, seed(), 60 if quick else 3000], timeout=7200)
-    typable = [tuple(x) for x in json.load(open(str(nest) + ".typable.json"))]
-    opkeys = {o["key"] for o in ops} | {"app"}
-    typable = [t for t in typable if t[0] in opkeys and t[2] in opkeys]
-    write_tables(ops, lad, typable)
-    r = model_check("C07_Syntax", "C07_Syntax.cfg", wd=wd / "mc", workers=4)
-    rep.add_mc("C07_Syntax", r, "%d operators, %d ladder rules, %d typable nestings" % (len(ops), len(lad), len(typable)))
-    if r.violated:
-        rep.design_violation("C07_Syntax", r)
-    rep.exhaustive = True
-    # oracle non-vacuity: the table as it was at the pinned commit for one family (append and cons at one priority) must break RoundTrip
-    spec_mutant(rep, "cons_same_priority_as_append", "C07_Syntax", "C07_Syntax.cfg",
-                [("gen/C07_Tables.tla", '("cons" :> <<%d, "R">>)' % next(o["priority"] for o in ops if o["key"] == "cons"),
-                  '("cons" :> <<%d, "R">>)' % next(o["priority"] for o in ops if o["key"] == "append"))], ["RoundTrip"], wd=wd, workers=4)
-    evs = read_events(nest)
-    v = validate_trace("C07_SyntaxTrace", nest, wd=wd / "tv_nest", nchunks=1 if quick else 3)
-    rep.add_trace_result("nestings", evs, v, sample_n=2)
+def corrupt_roundtrip(evs):
+    """binding self-test for RoundTrip: the parse result loses a part of its structure"""
     bad = []
     for e in evs:
         if e["kind"] == "term" and e["outcome"] == "ok" and e["t"][0] == "comb" and len(bad) < 2:
@@ -156,17 +139,160 @@ def run(rep, tier):
             c["r"] = c["r"][2]
             c["tid"] = 10 ** 6 + len(bad)
             bad.append(c)
-    selftest_trace(rep, "C07_SyntaxTrace", bad, "RoundTrip", wd=wd)
-    rnd = random.Random(seed())
+    return bad
+
+
+def name_clash(a):
+    """projected argument: an instantiation (possibly after a theorem name) with one name in its type part and in its term part"""
+    if a and a[0] == "tuple":
+        return any(name_clash(x) for x in a[1])
+    return bool(a) and a[0] == "inst" and bool({k for k, _ in a[1]} & {k for k, _ in a[2]})
+
+
+def corrupt_ext(evs):
+    """binding self-tests on the argument / history events: (RoundTrip) an instantiation read back WITHOUT its type part,
+    a history step whose parse result is another object; (PrintStable) a second print that differs, a repeated history step that differs"""
+    rt, ps = [], []
+    for e in evs:
+        if e["kind"] == "args" and e["outcome"] == "ok" and e["t"][0] == "inst" and e["t"][1] and e["t"][2] and len(rt) < 2:
+            c = copy.deepcopy(e)
+            c["r"][1] = []
+            c["tid"] = 2 * 10 ** 6 + len(rt)
+            rt.append(c)
+        if e["kind"] == "args" and e["outcome"] == "ok" and e["cfg"][1] and len(e.get("out2", [])) > 2 and len([x for x in ps if x["kind"] == "args"]) < 2:
+            c = copy.deepcopy(e)
+            c["out2"] = c["out2"] + c["out2"][-2:]
+            c["tid"] = 3 * 10 ** 6 + len(ps)
+            ps.append(c)
+        if e["kind"] == "session" and all(st["outcome"] == "ok" for st in e["steps"]):
+            S = e["steps"]
+            rep = [(i, j) for i in range(len(S)) for j in range(i + 1, len(S)) if S[i]["o"] == S[j]["o"] and S[i]["cfg"] == S[j]["cfg"]]
+            if rep and S[rep[0][1]]["out"] and len([x for x in ps if x["kind"] == "session"]) < 2:
+                c = copy.deepcopy(e)
+                c["steps"][rep[0][1]]["out"] = c["steps"][rep[0][1]]["out"] + ["0|, "]
+                c["tid"] = 3 * 10 ** 6 + 100 + len(ps)
+                ps.append(c)
+            other = [(i, j) for i in range(len(S)) for j in range(len(S)) if S[i]["o"] != S[j]["o"] and e["vals"][S[i]["r"] - 1][0] == e["vals"][S[j]["r"] - 1][0]]
+            if other and len([x for x in rt if x["kind"] == "session"]) < 2:
+                c = copy.deepcopy(e)
+                c["steps"][other[0][0]]["r"] = c["steps"][other[0][1]]["r"]
+                c["tid"] = 2 * 10 ** 6 + 100 + len(rt)
+                rt.append(c)
+    return rt, ps
+
+
+def run(rep, tier):
+    quick = tier == "quick"
+    wd = work_dir("C07", clean=True)
+    rep.rule = ("TLC: every depth-2 nesting of the operators of syntax/operator.py / application, printed with the table's bracket rules and "
+                "parsed with the grammar's ladder (both generated from the code); every proof-step argument value over small name / value sets "
+                "for every signature of parse_args (C07_Args); every history of 3 (thorough: also 4) print operations over objects sharing terms "
+                "and over the settings (C07_History). Real code: one well-typed instance of every typable nesting under 4 plain + rotating "
+                "highlighted settings, seeded further instances and depth-3 nestings, ~140 special forms under all 12 settings, a seeded "
+                "sample of library statements / sequents / constant types / stored proof items, every argument vector through print_str_args "
+                "and export_proof_item, every history vector on real objects in one process, seeded long histories; every print is done twice. "
+                "Non-trivial = every event; distinct by content.")
+    rep.assumptions = ["terms use constants at declared instances and do not contain two free variables of one name at different types",
+                       "settings: unicode x highlight x line width for single terms; unicode x highlight for types, sequents and proof-step "
+                       "arguments (the code does not support a line width there); the display form 'x :: T' of rule variable with highlighting is not parsed back",
+                       "TLC/SANY, structural codec, the extraction of the grammar ladder by harness/checks/c07.py (regular expressions over the grammar text)"]
+    ops, lad, d = gen_tables(wd)
+    # two independent pipelines run side by side (each is a chain of single processes): the nestings (which also tell which
+    # nestings have a well-typed instance, needed by C07_Syntax) | arguments + histories, then the corpus
+    from concurrent.futures import ThreadPoolExecutor
+    acfg = "C07_Args.cfg" if quick else "C07_Args_wide.cfg"
+    hcfgs = ["C07_History.cfg"] if quick else ["C07_History_wide.cfg", "C07_History_deep.cfg"]
+    nest, ext, corp = wd / "nest.ndjson", wd / "ext.ndjson", wd / "corpus.ndjson"
     theories = ["logic_base", "nat", "set", "list", "real"] if quick else ["logic_base", "logic", "nat", "set", "function", "list", "int", "real", "expr", "hoare", "interval_arith"]
-    corp = wd / "corpus.ndjson"
-    run_driver("c07", ["corpus", corp, seed(), 20 if quick else 400, ",".join(theories)], timeout=7200)
-    evs2 = read_events(corp)
-    v2 = validate_trace("C07_SyntaxTrace", corp, wd=wd / "tv_corpus", nchunks=1 if quick else 3)
+
+    def side():
+        res = {"ra": model_check("C07_Args", acfg, wd=wd / "mc_args", workers=1), "rh": []}
+        hlogs = []
+        for hcfg in hcfgs:
+            res["rh"].append(model_check("C07_History", hcfg, wd=wd / "mc_hist", workers=1))
+            hlogs.append(str(wd / "mc_hist" / ("C07_History.%s.tlc.log" % hcfg[:-4])))
+        run_driver("c07", ["ext", ext, seed(), wd / "mc_args" / ("C07_Args.%s.tlc.log" % acfg[:-4]), 2 if quick else 4, ",".join(hlogs),
+                           2 if quick else 8], timeout=7200)
+        res["evs3"] = read_events(ext)
+        res["v3"] = validate_trace("C07_SyntaxTrace", ext, wd=wd / "tv_ext", nchunks=1 if quick else 3)
+        run_driver("c07", ["corpus", corp, seed(), 20 if quick else 400, ",".join(theories)], timeout=7200)
+        res["evs2"] = read_events(corp)
+        res["v2"] = validate_trace("C07_SyntaxTrace", corp, wd=wd / "tv_corpus", nchunks=1 if quick else 2)
+        return res
+    pool = ThreadPoolExecutor(max_workers=1)
+    fut = pool.submit(side)
+    try:
+        run_driver("c07", ["nest", nest, seed(), 60 if quick else 3000, 2 if quick else 6], timeout=7200)
+        typable = [tuple(x) for x in json.load(open(str(nest) + ".typable.json"))]
+        opkeys = {o["key"] for o in ops} | {"app"}
+        typable = [t for t in typable if t[0] in opkeys and t[2] in opkeys]
+        write_tables(ops, lad, typable)
+        r = model_check("C07_Syntax", "C07_Syntax.cfg", wd=wd / "mc", workers=2)
+        evs = read_events(nest)
+        v = validate_trace("C07_SyntaxTrace", nest, wd=wd / "tv_nest", nchunks=1 if quick else 2)
+    finally:
+        side_res = fut.result()
+        pool.shutdown()
+    rep.add_mc("C07_Syntax", r, "%d operators, %d ladder rules, %d typable nestings" % (len(ops), len(lad), len(typable)))
+    if r.violated:
+        rep.design_violation("C07_Syntax", r)
+    rep.exhaustive = True
+    rep.add_trace_result("nestings", evs, v, sample_n=2)
+    # ---- proof-step arguments and histories: vectors from TLC, performed on the real code, judged by the T specification
+    ra = side_res["ra"]
+    rep.add_mc("C07_Args", ra, acfg)
+    if ra.violated:
+        rep.design_violation("C07_Args", ra)
+    for hcfg, rh in zip(hcfgs, side_res["rh"]):
+        rep.add_mc("C07_History", rh, hcfg)
+        if rh.violated:
+            rep.design_violation("C07_History", rh)
+    evs3, v3, evs2, v2 = side_res["evs3"], side_res["v3"], side_res["evs2"], side_res["v2"]
+    rep.add_trace_result("arguments+histories", evs3, v3, sample_n=2)
     rep.add_trace_result("corpus", evs2, v2, sample_n=2)
+    # ---- non-vacuity of the oracles (two at a time)
+    bad_rt, bad_ps = corrupt_ext(evs3)
+    if not v3["fails"]:
+        require(len(bad_rt) >= 3 and len(bad_ps) >= 3, "C07: no events to corrupt for the binding self-tests")
+    bad_rt = corrupt_roundtrip(evs) + bad_rt
+    jobs = [
+        # the table as it was at the pinned commit for one family (append and cons at one priority) must break RoundTrip
+        lambda: spec_mutant(rep, "cons_same_priority_as_append", "C07_Syntax", "C07_Syntax.cfg",
+                            [("gen/C07_Tables.tla", '("cons" :> <<%d, "R">>)' % next(o["priority"] for o in ops if o["key"] == "cons"),
+                              '("cons" :> <<%d, "R">>)' % next(o["priority"] for o in ops if o["key"] == "append"))], ["RoundTrip"], wd=wd, workers=2),
+        # the one-dict format loses the type entry when type and term variable keys are not kept apart
+        lambda: spec_mutant(rep, "tvar_key_without_quote", "C07_Args", "C07_Args.cfg", [("C07_Args.tla", 'TKey(nm) == "\'" \\o nm', "TKey(nm) == nm")],
+                            ["ArgRoundTrip"], wd=wd, workers=1),
+        # the design that keeps the printed output with the memoised AST: commas_join corrupts the shared list
+        lambda: spec_mutant(rep, "printed_output_kept_with_memoised_ast", "C07_History", "C07_History_stable.cfg",
+                            [("C07_History.tla", "ShareOutput == FALSE", "ShareOutput == TRUE")], ["PrintStable"], wd=wd, workers=1),
+        lambda: selftest_trace(rep, "C07_SyntaxTrace", bad_rt, "RoundTrip", wd=wd / "st_rt"),
+        lambda: selftest_trace(rep, "C07_SyntaxTrace", bad_ps, "PrintStable", wd=wd / "st_ps") if bad_ps else None,
+    ]
+    (wd / "st_rt").mkdir(exist_ok=True)
+    (wd / "st_ps").mkdir(exist_ok=True)
+    with ThreadPoolExecutor(max_workers=2) as ex:
+        for f in [ex.submit(j) for j in jobs]:
+            f.result()
     from collections import Counter
-    rep.notes["events_by_kind"] = dict(Counter(e["kind"] for e in evs + evs2))
-    require(len(evs) >= 3000 and len(evs2) >= (300 if quick else 3000), "C07: too few round trips (vacuity guard)")
+    allev = evs + evs2 + evs3
+    rep.notes["events_by_kind"] = dict(Counter(e["kind"] for e in allev))
+    rep.notes["events_by_settings"] = {"u%d h%d w%d" % (k[0], k[1], k[2]): n for k, n in sorted(Counter(
+        (int(e["cfg"][0]), int(e["cfg"][1]), e["cfg"][2]) for e in allev if e["kind"] in ("term", "thm", "type", "item", "args") and len(e["cfg"]) == 3).items())}
+    sess = [e for e in evs3 if e["kind"] == "session"]
+    steps = sum(len(e["steps"]) for e in sess)
+    repeated = sum(1 for e in sess if len({(st["o"], tuple(st["cfg"])) for st in e["steps"]}) < len(e["steps"]))
+    clash = sum(1 for e in evs3 if e["kind"] in ("args", "item") and name_clash(e["t"] if e["kind"] == "args" else e["t"][2]))
+    rep.notes["histories"] = {"sessions": len(sess), "print_steps": steps, "sessions_repeating_an_operation": repeated,
+                              "argument_events": sum(1 for e in evs3 if e["kind"] == "args"), "exported_step_events": sum(1 for e in evs3 if e["kind"] == "item"),
+                              "instantiations_with_a_name_in_both_parts": clash}
+    hl = sum(1 for e in allev if e["kind"] in ("term", "thm", "type", "args") and e["cfg"][1])
+    if not rep.violations:
+        require(len(evs) >= 3000 and len(evs2) >= (300 if quick else 3000), "C07: too few round trips (vacuity guard)")
+        require(len(sess) >= (1500 if quick else 40000) and repeated >= (300 if quick else 10000), "C07: too few histories (vacuity guard)")
+        require(sum(1 for e in evs3 if e["kind"] == "args") >= (1000 if quick else 20000) and clash >= (100 if quick else 1000),
+                "C07: too few proof-step arguments / instantiations with overlapping names (vacuity guard)")
+        require(hl >= 2000, "C07: too few round trips with highlighting (vacuity guard)")
 
 
 def replay(path):
@@ -176,7 +302,12 @@ def replay(path):
         print(json.dumps(obj, indent=1)[:3000])
         return 1
     e = obj["event"]
-    print("event", e.get("key"), "clause", obj["clause"], "text:", e.get("text"), "err:", e.get("err"))
+    print("event", e.get("key"), "clause", obj["clause"], "settings [unicode, highlight, width]:", e.get("cfg"), "text:", e.get("text"), "err:", e.get("err"))
+    if e.get("kind") == "session":
+        for k, st in enumerate(e["steps"]):
+            print("  step %d: print %s under %s -> %r ; parse back: %s %s" % (k + 1, st["o"], st["cfg"], st.get("text"), st["outcome"], st.get("err", "")))
+    elif "out2" in e and e["out2"] != e.get("out"):
+        print("  first print :", e.get("out"), "\n  second print:", e["out2"])
     wd = work_dir("C07", "replay1", clean=True)
     write_events(wd / "ev.ndjson", [e])
     v = validate_trace("C07_SyntaxTrace", wd / "ev.ndjson", wd=wd / "tv", nchunks=1)
